@@ -47,9 +47,21 @@ struct Worker {
     served: usize,
 }
 
+/// Path of this binary, resolved once at start (a rebuild while the check runs replaces the
+/// file: /proc/self/exe then reads "<path> (deleted)"; the new file at <path> is used).
+fn worker_exe() -> std::path::PathBuf {
+    static EXE: std::sync::OnceLock<std::path::PathBuf> = std::sync::OnceLock::new();
+    EXE.get_or_init(|| {
+        let p = std::env::current_exe().expect("current_exe");
+        let s = p.to_string_lossy().into_owned();
+        std::path::PathBuf::from(s.strip_suffix(" (deleted)").unwrap_or(&s))
+    })
+    .clone()
+}
+
 impl Worker {
     fn spawn() -> Worker {
-        let exe = std::env::current_exe().expect("current_exe");
+        let exe = worker_exe();
         let mut child = Command::new("/bin/sh")
             .arg("-c")
             .arg(format!("ulimit -v {CHILD_VMEM_KIB}; ulimit -c 0; exec \"$0\" c11-worker"))
@@ -285,7 +297,7 @@ pub struct CaseInput {
     pub classes: Vec<String>,
     /// recursion / limit shape (non-trivial by construction)
     pub shaped: bool,
-    /// generator family/variant: skip histogram, and the key of crash-signal / hang signatures
+    /// generator family/variant (skip histogram, messages)
     pub tag: String,
     /// reproducer of a listed finding (not subject to the generators' exclusions)
     pub payload: bool,
@@ -364,7 +376,7 @@ pub fn decide_within(ctx: &Ctx, c: &CaseInput, limit: Duration) -> Outcome {
         Ran::TimedOut { mode, stage } => {
             // A time limit never makes a violation.  Only the reproducer of a *listed* hang
             // (demonstrated against the real binary) reports its KNOWN-FINDING line this way.
-            let sig = format!("hang:{stage}:{}", c.tag);
+            let sig = format!("hang:{stage}:{}", c.family);
             if ctx.findings().iter().any(|k| k.key == sig && k.status == "known") {
                 return Outcome::fail(sig, format!("the `{mode}` pipeline did not finish stage `{stage}` within {} CPU-s", limit.as_secs()), input);
             }
@@ -383,7 +395,7 @@ pub fn decide_within(ctx: &Ctx, c: &CaseInput, limit: Duration) -> Outcome {
                 Some(6) | Some(11) | Some(7) | Some(4) if !oom => {
                     let kind = if overflow { "stack overflow" } else { "abort/fault without a stack-overflow message" };
                     Outcome::fail(
-                        format!("crash-signal:{stage}:{}", c.tag),
+                        format!("crash-signal:{stage}:{}", c.family),
                         format!(
                             "the process running the `{mode}` pipeline died with signal {} in stage `{stage}`: {kind}\nstderr: {}",
                             signal.unwrap(),
@@ -394,6 +406,17 @@ pub fn decide_within(ctx: &Ctx, c: &CaseInput, limit: Duration) -> Outcome {
                 }
                 _ if oom => Outcome::skip(format!("worker ran out of memory in {mode}/{stage} (resource limit, inconclusive)")),
                 Some(9) => Outcome::skip(format!("worker killed (SIGKILL) in {mode}/{stage} — inconclusive")),
+                _ if matches!(code, Some(126) | Some(127)) || (mode.is_empty() && stage.is_empty()) => {
+                    // the worker did not even start the case: the harness is broken, say so
+                    println!(
+                        "INCONCLUSIVE property={}: the worker process could not run (code {code:?}, signal {signal:?}): {}",
+                        ctx.id,
+                        stderr.trim()
+                    );
+                    use std::io::Write;
+                    let _ = std::io::stdout().flush();
+                    std::process::exit(2);
+                }
                 _ => Outcome::skip(format!("worker ended unexpectedly in {mode}/{stage}: code {code:?} signal {signal:?}")),
             }
         }
@@ -476,6 +499,7 @@ fn payload_case(p: &serde_json::Value) -> Option<CaseInput> {
 }
 
 pub fn run(ctx: &Ctx) {
+    let _ = worker_exe();
     let mut corpus = front::load_corpus();
     // the 134 hand-written erroneous files: one error each; edits combine them
     {
@@ -511,7 +535,7 @@ pub fn run(ctx: &Ctx) {
     // development aid: C11_ONLY=mutated|shapes runs one generated sub-check
     let only = std::env::var("C11_ONLY").ok();
     let dev_cases: Option<usize> = std::env::var("C11_CASES").ok().and_then(|t| t.parse().ok());
-    let n = dev_cases.unwrap_or(ctx.scale(4000, 300_000));
+    let n = dev_cases.unwrap_or(ctx.scale(2000, 300_000));
     if only.as_deref().map(|o| o == "mutated").unwrap_or(true) {
     ctx.run("mutated", CaseCfg::cases(n).choices(600).same_thread().timeout_s(1500).shrink_iters(SHRINK_ITERS), |d| {
         let i = usable[d.below_usize(usable.len())];
@@ -541,7 +565,7 @@ pub fn run(ctx: &Ctx) {
     });
     }
 
-    let n = dev_cases.unwrap_or(ctx.scale(3000, 200_000));
+    let n = dev_cases.unwrap_or(ctx.scale(3000, 300_000));
     if only.as_deref().map(|o| o == "shapes").unwrap_or(true) {
     ctx.run("shapes", CaseCfg::cases(n).choices(400).same_thread().timeout_s(1500).shrink_iters(SHRINK_ITERS), |d| {
         let g = c11gen::shape(d, quick);
